@@ -1787,10 +1787,63 @@ class Frame:
         return d
 
     def ev_JoinedStr(self, n):
+        from .bitabs_models import TOO_WIDE, is_abs, try_lift
+        parts, abstract = [], []
+        ok = True
         for v in n.values:
-            if isinstance(v, ast.FormattedValue):
-                self.ev(v.value)  # evaluated for its effects / errors
-        return self.I.opaque("f-string", notnone=True)
+            if isinstance(v, ast.Constant):
+                parts.append(str(v.value))
+                continue
+            val = self.ev(v.value)          # evaluated for its effects / errors in any case
+            spec = ""
+            if v.format_spec is not None:
+                sp = self.ev(v.format_spec)
+                if not isinstance(sp, str):
+                    ok = False
+                spec = sp if isinstance(sp, str) else ""
+            if isinstance(val, AInt) and not val.isbool:
+                val = self.I.simp_int(val) if hasattr(self.I, "simp_int") else val
+                c = self.I_const(val)
+                if c is not None:
+                    val = c
+            if is_abs(val) and not isinstance(val, (AInt, AFin)):
+                ok = False
+            if isinstance(val, (EnumMember, AObj)) or callable(val) and not isinstance(val, type):
+                ok = False                  # text of objects (repr / __str__) is not modelled
+            if is_abs(val):
+                abstract.append(len(parts))
+            parts.append((val, v.conversion, spec))
+        if not ok:
+            return self.I.opaque("f-string", notnone=True)
+
+        def render(*vals):
+            it = iter(vals)
+            out = []
+            for k, p in enumerate(parts):
+                if isinstance(p, str):
+                    out.append(p)
+                    continue
+                val, conv, spec = p
+                if k in abstract:
+                    val = next(it)
+                if conv == ord("r"):
+                    val = repr(val)
+                elif conv == ord("s"):
+                    val = str(val)
+                elif conv == ord("a"):
+                    val = ascii(val)
+                out.append(format(val, spec))
+            return "".join(out)
+        try:
+            if not abstract:
+                return render()
+            # a few symbolic digits: the text as an exact finite function of them
+            r = try_lift(render, *[parts[k][0] for k in abstract])
+        except (ValueError, TypeError) as e:
+            raise PathRaise(type(e).__name__, f"{e} at {self.fi.module.relpath}:{n.lineno}")
+        if r is TOO_WIDE or r is None:
+            return self.I.opaque("f-string", notnone=True)
+        return r
 
     def ev_Lambda(self, n):
         fd = ast.FunctionDef(name="<lambda>", args=n.args, body=[ast.Return(value=n.body)], decorator_list=[], returns=None, type_comment=None, type_params=[])
